@@ -6,7 +6,7 @@ from common import *  # noqa
 import framework as fw
 import diffrun
 
-MODULE = "LWV.Props.C20"
+MODULE = ["LWV.Props.C20", "LWV.Props.C20Full"]
 
 
 def parse(o):
